@@ -317,6 +317,7 @@ def full_stack_case(tid, writer, npre, ndeliver, nduring, nafter, cuts):
     from .dil_full import FullWorld
     from twisted.internet import protocol as tproto
     fw = FullWorld(variant=tid)
+    fw.units_first = bool(tid % 2)
     reader = "F" if writer == "L" else "L"
     got, issued, errors = [], [], []
     lost = []
@@ -390,6 +391,116 @@ def full_stack_case(tid, writer, npre, ndeliver, nduring, nafter, cuts):
            "lateListen": False, "perSub": {"issued": [list(range(len(issued)))], "delivered": [delivered]},
            "echoes": [], "echoErrors": [], "closedByOpener": 1 if conn else 0, "lostAtOpener": lost.count(writer),
            "mgr": {n: st[n]["mgr"] for n in st}}
+    return rec
+
+
+def full_stack_sub_case(tid, opener, nsubs, offline, close, listen_late, units_first=False):
+    """C13 on the whole stack: two real dilating wormholes; `opener`'s application opens nsubs subchannels, writes two pieces on
+    each and (close) closes them - while connected, or (offline) after the network has cut the link in use, so that OPEN, DATA
+    and CLOSE all wait for, and arrive with, the next connection (on the Follower's side: before its Connector has accepted
+    it).  At rest every subchannel has appeared once on the other side with its data in order before its connectionLost, and the
+    opener has seen connectionLost for each one it closed."""
+    from .dil_full import FullWorld
+    from twisted.internet import protocol as tproto
+    fw = FullWorld(variant=tid)
+    fw.units_first = units_first
+    acceptor = "F" if opener == "L" else "L"
+    logs = {}      # (side, object index) -> protocol
+    built = {"L": [], "F": []}
+    errors = []
+
+    class P(tproto.Protocol):
+        def connectionMade(self):
+            self.log = [["made", "-"]]
+
+        def dataReceived(self, data):
+            self.log.append(["data", bytes(data).decode("latin-1")])
+
+        def connectionLost(self, reason=None):
+            self.log.append(["lost", "-"])
+
+    def fac(side):
+        f = tproto.Factory()
+
+        def build(addr):
+            p = P()
+            p.log = []
+            built[side].append(p)
+            return p
+        f.buildProtocol = build
+        return f
+    fw.do(("AppDilate", "L", 0))
+    fw.do(("AppDilate", "F", 0))
+    rested = fw.run_out()
+
+    def listen():
+        try:
+            fw.api[acceptor].listener_for("p").listen(fac(acceptor))
+        except Exception as e:
+            errors.append("listen: %r" % (e,))
+    if not listen_late:
+        listen()
+    if offline:
+        sel = fw.selected_links(opener)
+        if sel:
+            fw.do(("Cut", "-", sel[0]))
+    opened = []
+    wrote = {}
+    for k in range(nsubs):
+        res = []
+        try:
+            d = fw.api[opener].connector_for("p").connect(fac(opener))
+            d.addCallbacks(res.append, lambda f: errors.append("connect: %r" % (f.value,)))
+            fw.run_auto_timers()
+        except Exception as e:
+            errors.append("open: %r" % (e,))
+        if not res:
+            continue
+        p = res[0]
+        opened.append(p)
+        sid = getattr(p.transport, "_scid", None)
+        wrote[sid] = []
+        try:
+            for j in range(2):
+                data = "s%d-%d" % (k, j)
+                p.transport.write(data.encode())
+                wrote[sid].append(data)
+            if close:
+                p.transport.loseConnection()
+        except Exception as e:
+            errors.append("write/close: %r" % (e,))
+        fw.run_auto_timers()
+    rested = fw.run_out() and rested
+    if listen_late:
+        listen()
+        rested = fw.run_out() and rested
+    ends, missing = {}, []
+    acc = {getattr(p.transport, "_scid", None): p for p in built[acceptor]}
+    for p in opened:
+        sid = getattr(p.transport, "_scid", None)
+        ends["%do" % sid] = {"ev": p.log, "peerWrote": [], "errors": [], "calls": [], "closesSent": 0}
+        a = acc.get(sid)
+        if a is None:
+            missing.append("subchannel %s never appeared at %s" % (sid, acceptor))
+            continue
+        ends["%da" % sid] = {"ev": a.log, "peerWrote": wrote[sid], "errors": [], "calls": [], "closesSent": 0}
+        if rested:
+            if [x[1] for x in a.log if x[0] == "data"] != wrote[sid]:
+                missing.append("subchannel %s: data %s of %s arrived" % (sid, [x[1] for x in a.log if x[0] == "data"], wrote[sid]))
+            if close and not any(x[0] == "lost" for x in a.log):
+                missing.append("subchannel %s: closed by the opener, no connectionLost at %s" % (sid, acceptor))
+            if close and not any(x[0] == "lost" for x in p.log):
+                missing.append("subchannel %s: closed by the opener, whose own connectionLost never came" % sid)
+    if len(built[acceptor]) != len(acc):
+        missing.append("%d protocols built at %s for %d subchannels" % (len(built[acceptor]), acceptor, len(acc)))
+    if not rested:
+        missing.append("the run did not come to rest")
+    internal = errors + fw.finish()
+    rec = {"tid": tid, "kind": "sub", "issued": [], "delivered": [], "goal": False,
+           "internal": [x for x in internal if "NoTransition" not in x or "stopped" not in x],
+           "ends": ends, "pendingUnexpected": 0,
+           "scids": {opener: [getattr(p.transport, "_scid", None) for p in opened], acceptor: []},
+           "afterCloseOK": True, "missingOpens": missing}
     return rec
 
 
@@ -1065,6 +1176,19 @@ def run(prop, tier):
                 records.append(rec)
                 meta[tid] = {"schedule": [["public-api-expected", expected, opens, listen]], "config": "public"}
             cov["public_api_cases"] = n
+            # family: subchannels opened, written to and closed on the whole stack - also while there is no connection
+            n = 0
+            for opener in ("L", "F"):
+                for (nsubs, offline, close, late) in ((1, False, True, False), (2, True, True, False), (3, True, False, False), (2, True, True, True),
+                                                      (1, True, True, False), (2, False, False, True)):
+                    for uf in (False, True):
+                        tid += 1
+                        n += 1
+                        rec = full_stack_sub_case(tid, opener, nsubs, offline, close, late, uf)
+                        rec["origin"], rec["config"] = "family:full-stack", "full"
+                        records.append(rec)
+                        meta[tid] = {"schedule": [["full-stack-sub", opener, nsubs, offline, close, late, uf]], "config": "full"}
+            cov["full_stack_cases"] = n
         if prop == "C10":
             # family: the same question on the whole stack (real Connector and connection selection under the Managers)
             n = 0
